@@ -138,6 +138,13 @@ func (c *ProcChan) WaitStop() {
 // addCallCtx : add call context
 func (c *ProcChan) addCallCtx(ctx context.Context, proc Proc) (*procChanCtxT, error) {
 	var procCtx = newProcChanCtx(ctx, proc)
+	// once stopped nothing new is accepted: without this check the select below may
+	// still pick the send while the stop channel is closed
+	select {
+	case <-c.stopChan:
+		return procCtx, ErrClosed
+	default:
+	}
 	select {
 	case c.ch <- procCtx:
 		return procCtx, nil
